@@ -310,7 +310,7 @@ fn corpus_cases(o: &Opts) -> (Vec<Case17>, bool) {
 
 pub fn run(o: &Opts) {
     let mut st = Stats::new();
-    let mut sh = Shards::new(&o.out, o.shards, &format!("{} Run.Classify_C17.\nImport ListNotations.\nOpen Scope N_scope.", HEADER));
+    let mut sh = Shards::new(&o.out, if o.thorough { o.shards * 6 } else { o.shards }, &format!("{} Run.Classify_C17.\nImport ListNotations.\nOpen Scope N_scope.", HEADER));
     st.rule = "1-4 YAML documents (random subsets of encoding/account/account_type/operator/commodity/format, 0-4 rewrite rules each with single/OR-list matchers over payee/category/secondary_commodity, capture groups, payee/account/pending/conversion settings; paths drawn as substrings of the file path with frequent equal lengths) through load_from_yaml and ConfigSet::select; then 1-4 CSV records through import::import(Csv) under the selected entry (its `format` replaced by the harness's column layout) and Txn::to_double_entry; non-trivial = at least two documents match the path, or at least two rules hit one record; distinct by YAML + path + CSV".into();
     st.assumptions.push("matcher patterns come from a small language (literal / [0-9]+ / .* atoms, optional ^ $, named groups payee and code) for which leftmost-first backtracking in the model is what the regex crate computes; text is UTF-8 without line breaks".into());
     st.assumptions.push("file paths are valid Unicode and use '/' (on this platform PathBufExt::from_slash is the identity)".into());
@@ -320,7 +320,7 @@ pub fn run(o: &Opts) {
     }
     if !replay {
         let mut r = Rng::new(o.seed, 1701);
-        let n = if o.thorough { 24000 } else { 2000 };
+        let n = if o.thorough { 12000 } else { 2000 };
         for _ in 0..n {
             let c = gen_case(&mut r);
             emit(&mut sh, &mut st, &c, "random");
